@@ -150,6 +150,10 @@ func init() {
 	call("kFwdV", "contract-forwards-to-voter", "fwdV", 150)
 	call("kRevV", "contract-forwards-to-voter-then-reverts", "revV", 150)
 	call("kOogV", "contract-forwards-to-voter-then-burns-all-gas", "oogV", 150)
+	// a contract creation by X carrying 150 LEMO whose constructor forwards them to V and then REVERTs
+	rdef("kNewRevV", "creation-forwards-to-voter-then-reverts", 300000, func(exp, gas uint64) *types.Transaction {
+		return node.Tx(node.TxSpec{Type: params.CreateContractTx, From: kX, Amount: node.Lemo(150), Data: chainkit.RtForwardThenRevert(kV.Addr), Exp: exp, GasLimit: gas})
+	})
 	// a vote for a non-candidate by the voter V whose gas limit x price is 100 LEMO: buyGas alone takes V
 	// from 5 to 4 votes; the miner discards the transaction
 	rdef("dVnc$", "discarded-vote-with-fee-over-a-step", 100000, func(exp, gas uint64) *types.Transaction {
@@ -272,7 +276,7 @@ var (
 	// sub-transactions; vXnc always fails
 	rSubs     = []string{"uC1+100", "vVC1", "vVC2", "tXV150", "tVX150", "xC1", "vXnc"}
 	rSubsMore = []string{"vWC2", "uC1+50", "kRevV", "tWbig", "uC1+big", "xC2"}
-	rPlainMore = []string{"dVbig$", "vWC2", "uC1+50", "tXV50", "xC2"}
+	rPlainMore = []string{"dVbig$", "vWC2", "uC1+50", "tXV50", "xC2", "kNewRevV"}
 )
 
 // rBoxes lists every box of 1..n sub-transactions over subs, each alone and with every "@gJ".
@@ -375,18 +379,22 @@ func rMenu(depth int) []string {
 		m = append(m, rPlainBlocks(rPlain, 2)...)
 		m = append(m, rWithBox(rBoxes(rSubs, 2), rPlain, false)...)
 	case core.Thorough() && depth == 1:
-		// boxes of <= 2 sub-transactions with a plain item before AND after; of <= 2 over the larger
-		// alphabets and of 3 sub-transactions with <= 1 neighbour
+		// the quick menu; boxes of <= 2 sub-transactions with a plain item before AND after (6 x 6
+		// neighbours); boxes of <= 2 over the larger sub-transaction alphabet with <= 1 neighbour; boxes of 3
+		// sub-transactions (6 letters) with <= 1 neighbour out of 4; blocks of <= 2 plain items over the larger alphabet
 		allSubs := append(append([]string{}, rSubs...), rSubsMore...)
 		allPlain := append(append([]string{}, rPlain...), rPlainMore...)
 		m = append(m, rPlainBlocks(allPlain, 2)...)
-		m = append(m, rWithBox(rBoxes(rSubs, 2), rPlain, true)...)
-		m = append(m, rWithBox(rBoxes(allSubs, 2), allPlain, false)...)
-		m = append(m, rWithBox(rBoxes(rSubs, 3), rPlain, false)...)
+		m = append(m, rWithBox(rBoxes(rSubs, 2), rPlain, false)...)
+		m = append(m, rWithBox(rBoxes(rSubs, 2), rPlain[:6], true)...)
+		m = append(m, rWithBox(rBoxes(allSubs, 2), rPlain, false)...)
+		m = append(m, rWithBox(rBoxes([]string{"uC1+100", "vVC1", "vVC2", "tXV150", "xC1", "vXnc"}, 3), []string{"tXV150", "vVC1", "uC1+100", "xC1"}, false)...)
 	case core.Thorough() && depth == 2:
-		// second block: one plain item, or a box of <= 2 sub-transactions on its own
+		// second block: one plain item; a one-sub-transaction box; a box undone by its last sub-transaction
 		m = append(m, rPlainBlocks(rPlain, 1)...)
-		m = append(m, rWithBox(rBoxes(rSubs, 2), nil, false)...)
+		for _, x := range rSubs[:6] {
+			m = append(m, "B:"+x, "B:"+x+";vXnc")
+		}
 	}
 	m = dedupe(m)
 	rMenuCache[key] = m
@@ -569,6 +577,26 @@ func runR(full []string) core.Outcome {
 		if gasAt > 0 {
 			shape += fmt.Sprintf("@gas-limit-at-sub-%d", gasAt)
 		}
+		// for fingerprints: when the miner undid something, the class of the case is WHAT was undone (the
+		// packaged neighbours that make the damage visible vary freely); otherwise the whole block
+		fpShape := "[" + shape + "]"
+		if rr.packaged != nil {
+			var undone []rItem
+			for j, it := range items {
+				if !rr.packaged[j] {
+					undone = append(undone, it)
+				}
+			}
+			if len(undone) > 0 {
+				fpShape = "undone[" + rKinds(undone) + "]"
+				if gasAt > 0 {
+					fpShape += fmt.Sprintf("@gas-limit-at-sub-%d", gasAt)
+				}
+				if len(undone) < len(items) {
+					fpShape += "+packaged-neighbours"
+				}
+			}
+		}
 		switch rr.status {
 		case "not-producible":
 			cause := rr.detail
@@ -583,9 +611,9 @@ func runR(full []string) core.Outcome {
 			return o
 		case "rejected":
 			if mm := tally(rr.minerSt); len(mm) > 0 {
-				viol("tally-mismatch/"+mismatchClasses(mm)+"/miner(validator-refuses-the-block)/["+shape+"]", fmt.Sprintf("after block %d %q, miner's state: %s; the validator refuses the block: %s", i+1, ev, fmtMismatches(mm), rr.detail))
+				viol("tally-mismatch/"+mismatchClasses(mm)+"/miner(validator-refuses-the-block)/"+fpShape, fmt.Sprintf("after block %d %q, miner's state: %s; the validator refuses the block: %s", i+1, ev, fmtMismatches(mm), rr.detail))
 			} else {
-				viol("honest-block-rejected/["+shape+"]", fmt.Sprintf("O refused the honestly built block %d %q: %s", i+1, ev, rr.detail))
+				viol("honest-block-rejected/"+fpShape, fmt.Sprintf("O refused the honestly built block %d %q: %s", i+1, ev, rr.detail))
 			}
 			return o
 		}
@@ -605,7 +633,11 @@ func runR(full []string) core.Outcome {
 			case len(mmM) == 0:
 				where = "validator-only"
 			}
-			viol("tally-mismatch/"+mismatchClasses(mm)+"/"+where+"/"+rShape(hist[:i+1]), fmt.Sprintf("after block %d %q (%s): %s", i+1, ev, where, fmtMismatches(mm)))
+			fpHist := fpShape
+			if i > 0 {
+				fpHist = rShape(hist[:i]) + fpShape
+			}
+			viol("tally-mismatch/"+mismatchClasses(mm)+"/"+where+"/"+fpHist, fmt.Sprintf("after block %d %q (%s): %s", i+1, ev, where, fmtMismatches(mm)))
 			o.Tags = append(o.Tags, "R/mismatch/"+shape)
 			return o
 		}
@@ -894,6 +926,28 @@ func rSmaller(h []string) [][]string {
 		}
 	}
 	return out
+}
+
+func rBounds() map[string]interface{} {
+	b := map[string]interface{}{"scenarios": rScenarioNames(), "max_blocks": rMaxBlocks(), "plain_items": rPlain, "sub_transactions": rSubs}
+	if core.Thorough() {
+		b["plain_items_more"] = rPlainMore
+		b["sub_transactions_more"] = rSubsMore
+	}
+	for d := 1; d <= rMaxBlocks(); d++ {
+		b[fmt.Sprintf("blocks_in_menu_of_block_%d", d)] = len(rMenu(d))
+	}
+	return b
+}
+
+func rRuleText() string {
+	t := "PHASE R (rolled-back work on the miner path; same BFS, scenarios R0 = C1, C2 registered, nobody votes / R1 = V and W vote C1): a block is a list of items = plain transactions and boxes B:s1;s2[;s3] (signed by X, sub-transactions by their own senders), optionally with the block gas limit reached at sub-transaction J (@gJ); built by the factory's real MineBlock (ApplyTxs: a failing transaction is undone with RevertToSnapshot and dropped), inserted into a real validator node; "
+	if core.Thorough() {
+		t += fmt.Sprintf("first block: %d blocks (every block of <= 2 plain items over %d letters; every box of <= 2 sub-transactions over %d letters x every @gJ with <= 1 plain neighbour out of %d, over %d letters also with a neighbour before AND after out of 6; boxes of 3 sub-transactions over 6 letters with <= 1 neighbour out of 4); second block from every distinct state: %d blocks; ", len(rMenu(1)), len(rPlain)+len(rPlainMore), len(rSubs)+len(rSubsMore), len(rPlain), len(rSubs), len(rMenu(2)))
+	} else {
+		t += fmt.Sprintf("one block after the prefix out of %d (every block of <= 2 plain items over %d letters; every box of <= 2 sub-transactions over %d letters, alone and with every @gJ, with <= 1 plain neighbour before or after); ", len(rMenu(1)), len(rPlain), len(rSubs))
+	}
+	return t + "plain items: transfers over V's 200-LEMO step in both directions, vote / re-vote, top-up over the 100-LEMO step, unregister, contract calls that forward 150 LEMO to V (ok / then REVERT / then invalid opcode), a vote for a non-candidate whose gas limit x price alone crosses V's step (discarded); sub-transactions: top-up, vote, re-vote, both transfers, unregister, a vote that always fails (failures also arise from the state: vote for the same candidate again, register / vote after unregistering); oracle = the tally equation on the state the miner saved AND on the validator's, after every block the miner produced whatever it discarded; a validator refusing the miner's block is a violation"
 }
 
 // rSelfCheck is the non-vacuity gate of phase R.
